@@ -366,6 +366,21 @@ def replay_one_(args):
     return out
 
 
+def hangup_seen_by(events):
+    """for a reader that ended blocked in the liveness check: which of its readiness polls had found the hang-up - the
+    timeout argument of the last select()/poll() it made before the blocked step ('zero-timeout-poll': the hang-up was
+    already there when that poll looked; 'timed-wait': it arrived while the reader sat in the wait)"""
+    last = None
+    for e in events:
+        if e.get('e') != 'step':
+            continue
+        if e.get('k') in ('select0', 'selectT'):
+            last = e['k']
+        if e.get('blocked'):
+            break
+    return {'select0': 'zero-timeout-poll', 'selectT': 'timed-wait'}.get(last, 'none')
+
+
 def judge_contract(out):
     """C06 / C05 clauses on what really happened (independent of the implementation-shaped model)"""
     import codecs
@@ -537,7 +552,8 @@ def run_transport(ctx, pool, transport, include_blocked=False):
             stats['accepted'] += 1
         for clause, i in bad:
             ctx.fail(clause, case, detail={'calls': out['calls'], 'written': out.get('written'), 'events': out['events']},
-                     signature={'transport': transport, 'tmo': out['calls'][i]['tmo'], 'kind': out['calls'][i]['kind']})
+                     signature={'transport': transport, 'tmo': out['calls'][i]['tmo'], 'kind': out['calls'][i]['kind'],
+                                'hangup_seen_by': hangup_seen_by(out['events']) if out['calls'][i]['kind'] == 'BLOCK' else None})
         if not ok and not bad:
             stats['drift'] += 1
             if stats['drift'] <= 3:
